@@ -111,6 +111,12 @@ var propSpecs = []PropSpec{
 		Outside:     "more waiters/workers/rounds; overflow of the counter beyond 2^62; durations",
 		Assumptions: commonAssumptions,
 		Tune:        func(cfg *Config, tier, entry string) {}},
+	{ID: "C15", Pkgs: []string{".", "adt"},
+		BoundsQ:     "Once: 10 wrapper kinds x <=2 concurrent callers; Limit(n): n symbolic in [1,4], <=5 sequential calls (5 kinds), 2 goroutines x 2 calls concurrently (3 kinds, n in [1,3]); Lock/WithLock: 7 kinds x 2 callers; Retry(n): n symbolic in [0,3], every outcome sequence over {ok, error, skip, EOF, abort, canceled} (3 kinds); hooks/Join: 11 compositions x live/cancelled context; background waiters: 9 kinds; preemption bound 2",
+		BoundsT:     "<=3 concurrent callers, preemption bound 3",
+		Outside:     "TTL, Delay, After, Jitter, Interval (wall clock); panicking wrapped functions under Limit/Once; deeper stackings of wrappers",
+		Assumptions: commonAssumptions,
+		Tune:        func(cfg *Config, tier, entry string) {}},
 	{ID: "TV", Pkgs: []string{"internal"}, BoundsQ: "translator validation corpus"},
 }
 
